@@ -6,6 +6,18 @@ CHECKS = {
  "C17": dict(engine="E2", technique="exhaustive product sweep of the request-validity decision table on the real code vs reference predicate",
              text="All 14 400 cells of version x method x Host x Content-Length x Transfer-Encoding x despite-method x front end are executed on the real Flow / Call objects and compared with the reference validity predicate; every cell also checks repeatability, untouched output buffer, readiness and advance. Exhaustive over the stated alphabet, so any change to any validity clause that alters a cell is seen.",
              note="Alphabet of header values is the one in the property's quantifier; Err vs Ok only (error variant not compared).", ref="4/C17"),
+ "C03": dict(engine="E1", technique="explicit-state search of the real chunked body writer: every reachable state x full (input length, buffer length) grid, strict independent chunk decoder as oracle",
+             text="Breadth-first search over the real Flow::<SendBody> / Call::<WithBody> chunked writer. From every reachable state (full internal-state fingerprint + terminators emitted) every write of a ~10^4 (quick) / ~10^5 (thorough) cell grid is executed and its output decoded by an independent strict decoder; because all states are expanded with the full grid, every sequence of such writes - finishing writes interleaved anywhere and repeated - is covered. Explored traces are replayed clone-free on fresh objects.",
+             note="Grid bounds: inputs <= 30730 bytes, buffers <= 20520 bytes; single pattern input (data continuity across calls follows from the per-call equality).", ref="4/C03"),
+ "C04": dict(engine="E1+E2", technique="complete state graphs of the real sized writer for N<=12 plus exhaustive boundary-step sweep for every N in 0..=70000 against a counting model",
+             text="For N in 0..=12 the complete reachable graph of the real Content-Length writer under all write(i,b) and consume_direct_write(k) with arguments 0..=N+2 is explored, with a three-line counting model as oracle and readiness compared with proceed() on a clone in every state. For every N in 0..=70000 and nine large u64 values the boundary steps {0,1,N-1,N,N+1} are executed from the initial state and from the states left in {N-1,1,0}.",
+             note="Between N=12 and N=70000 only boundary arguments are exercised (the writer's arithmetic is min/subtract on u64; interior values add no new branch).", ref="4/C04"),
+ "C18": dict(engine="E2", technique="exhaustive sweep over every buffer length n: advertised maximum vs the real write, strict decoder as oracle",
+             text="For every n in 0..=3*10248+64 (thorough 10*10248+64) and a boundary set up to 64 chunks, the real calculate_max_input(n) is followed by the real write of exactly that many bytes into an n-byte buffer; consumed must equal the advertised size, the output must decode to the input, m<=n and m is monotone. Chunked and length-delimited.",
+             note="n beyond the sweep is covered only at chunk-size and hex-digit boundaries (the property's 'random larger n' is replaced by a deterministic boundary set).", ref="4/C18"),
+ "C19": dict(engine="E2", technique="exhaustive sweep over (input length, buffer length) pairs of the real chunked/sized writer plus bounded caller loops",
+             text="~1.2 x 10^6 (quick) / ~4 x 10^6 (thorough) pairs, every buffer length 6..=11000 and around chunk multiples, are each executed on a fresh real writer: progress >= 1, progress >= progress with the advertised maximum, monotone in the input length; whole-body caller loops with fixed buffers must terminate within L writes and decode to the body.",
+             note="Input lengths per row are the enumerated set (1..=64/320, digit and chunk boundaries, the band around the buffer size), not every value up to 30000.", ref="4/C19"),
 }
 ALL = ["C%02d" % i for i in range(1, 21)]
 NA_REASON = "check not built yet (work in progress; not a claim that model checking cannot apply)"
